@@ -39,7 +39,7 @@ func (c15) Rule() string {
 		"longer histories over the full generator alphabet incl. styles and array moves, undo/redo bursts, offline stretches. " +
 		"Oracle per history: no Update/Undo/Redo/sync returns an error or panics; after the closing sync rounds and a final " +
 		"collection at the common minimum vector all replicas marshal byte-identically, and a fresh replica built from the log " +
-		"alone shows the same canonical content. Non-trivial = >=1 undo/redo executed and >=1 change pulled by a peer."
+		"alone shows the same canonical content. Non-trivial = >=1 undo/redo executed and >=1 change pulled by a peer. \"tick\" macro event (clock order of an undo vs a concurrent edit); an undo/redo that changes the document must leave a local change; symptoms of recorded findings never end an enumeration; F-UNDO-AFTER-PURGE identified by an observed re-creation of a purged node plus placement-only difference or a later edit."
 }
 func (c15) Assumptions() []string {
 	return []string{"in-process log instead of the RPC server (C01/C03 cover the server path; the sim generator also mixes undo into C03-style server histories)",
